@@ -9,11 +9,20 @@ Local Open Scope N_scope.
 Definition of_be_acc (a : N) (l : list N) : N := fold_left (fun x b => x * 256 + b) l a.
 Definition of_be (l : list N) : N := of_be_acc 0 l.
 
+(* division by 256 with bit operations (fast under vm_compute) *)
+Definition div256 (n : N) : N := N.shiftr n 8.
+Definition mod256 (n : N) : N := N.land n 255.
+
+Lemma div256_eq n : div256 n = n / 256.
+Proof. unfold div256. rewrite N.shiftr_div_pow2. reflexivity. Qed.
+Lemma mod256_eq n : mod256 n = n mod 256.
+Proof. unfold mod256. change 255 with (N.ones 8). rewrite N.land_ones. reflexivity. Qed.
+
 (* big.Int.Bytes: digits pushed in front of an accumulator; fuel = bit size *)
 Fixpoint be_acc (fuel : nat) (n : N) (acc : list N) : list N :=
   match fuel with
   | O => acc
-  | S f => if n =? 0 then acc else be_acc f (n / 256) (n mod 256 :: acc)
+  | S f => if n =? 0 then acc else be_acc f (div256 n) (mod256 n :: acc)
   end.
 
 Definition be_min (n : N) : list N := be_acc (N.to_nat (N.size n)) n [].
@@ -38,7 +47,7 @@ Lemma of_be_acc_be_acc f : forall n acc, n < 2 ^ N.of_nat f ->
 Proof.
   induction f as [|f IH]; intros n acc H.
   - cbn in H. assert (n = 0) by lia. subst. reflexivity.
-  - cbn [be_acc]. destruct (N.eqb_spec n 0) as [->|Hn]; [reflexivity|].
+  - cbn [be_acc]. rewrite div256_eq, mod256_eq. destruct (N.eqb_spec n 0) as [->|Hn]; [reflexivity|].
     rewrite IH by (apply div256_fuel; exact H).
     unfold of_be_acc. cbn [fold_left]. f_equal.
     pose proof (N.div_mod n 256). lia.
@@ -59,7 +68,7 @@ Lemma be_acc_head f : forall n acc, n < 2 ^ N.of_nat f -> n <> 0 ->
 Proof.
   induction f as [|f IH]; intros n acc H Hn.
   - cbn in H. lia.
-  - cbn [be_acc]. destruct (N.eqb_spec n 0) as [E|_]; [contradiction|].
+  - cbn [be_acc]. rewrite div256_eq, mod256_eq. destruct (N.eqb_spec n 0) as [E|_]; [contradiction|].
     destruct (N.eq_dec (n / 256) 0) as [E|E].
     + rewrite E, be_acc_zero. exists (n mod 256), acc. split; [reflexivity|].
       pose proof (N.div_mod n 256). lia.
@@ -95,7 +104,7 @@ Lemma be_acc_bytes f : forall n acc, bytes_ok acc -> bytes_ok (be_acc f n acc).
 Proof.
   induction f as [|f IH]; intros n acc H; cbn [be_acc]; [exact H|].
   destruct (n =? 0); [exact H|]. apply IH. constructor; [|exact H].
-  apply N.mod_lt. lia.
+  rewrite mod256_eq. apply N.mod_lt. lia.
 Qed.
 
 Lemma be_min_bytes n : bytes_ok (be_min n).
